@@ -418,6 +418,12 @@ C11_alloc(H) ==
     IN /\ \A i, j \in DOMAIN a : i # j => (ids(i) \cap ids(j) = {} /\ a[i].echo # a[j].echo)
        \* blocks that are live together and do not overlap have pairwise different starts (a necessary condition, cheap on 2 000 blocks)
        /\ \A r \in DOMAIN st : Cardinality({st[r].bases[k] : k \in DOMAIN st[r].bases}) = Len(st[r].bases)
+       \* all blocks of a round have the same size m: they are pairwise disjoint modulo 65536 iff the sorted starts are at least m apart,
+       \* the last and the first one across the wrap included
+       /\ \A r \in DOMAIN st :
+             LET b == SortSeq(st[r].bases, LAMBDA x, y : x < y)  n == Len(b)  m == st[r].m IN
+             /\ \A k \in 1..(n - 1) : b[k + 1] - b[k] >= m
+             /\ (n >= 2 => b[1] + 65536 - b[n] >= m)
 
 \* C15: all-or-error with exact counts
 C15_run(H) ==
@@ -428,6 +434,13 @@ C15_run(H) ==
                   /\ \A i \in ff : H.flt[i].class \in {"fatal", "typed"} => HasCause(H.out, CauseName(H.flt[i]))
     /\ (ff = {} /\ H.cancel < 0) => H.out.ok     \* in particular a failing public-IP lookup never fails the request
     /\ H.out.ok => (H.out.pub = IF H.par.public_ip /\ H.par.pub_mode = "ok" THEN "203.0.113.77" ELSE "")
+
+\* C10 at request level (RunTraceroute / the HTTP handler): whatever ended the request - success, failure, cancellation while probes
+\* were being paced - no goroutine it started is still alive once it has returned, and every handle it opened was closed exactly once
+C10_req(H) ==
+    /\ H.out.panic = ""
+    /\ H.out.goroutines = 0
+    /\ H.out.opened = H.out.closed_once /\ Len(H.out.bad_handles) = 0
 
 \* C19: parameters honoured exactly or rejected (expect = the meaning assigned by GenRun!Expect)
 C19_run(H) ==
